@@ -10,9 +10,10 @@
    the next top-level ';' only"); `kmode_pinned` is the pinned behaviour, kept for the
    refutation witnesses.
 
-   Left abstract on purpose: the `expected` 0..3 order machine of cssstylesheet (it decides
-   whether a *parsed* rule is kept, never how many tokens a statement consumes), and everything
-   the rule objects do with the token run they are given (selectors, values, media queries). *)
+   The `expected` 0..3 order state of cssstylesheet is modelled (`ord_step`, `sheet_ord`) with the rule objects'
+   well-formedness as a parameter `wf`; flags, handler calls and order signatures are read from the generated
+   Gen/UptoGen.v (translate/upto.py).  Left abstract on purpose: everything the rule objects do with the token run
+   they are given (selectors, values, media queries), the optional @media "name" sub-parse.                      *)
 From CssV Require Import Base Tokenizer Gen.UptoGen Upto.
 
 Inductive kind :=
